@@ -1,9 +1,12 @@
 import Driver.Ops
+import Driver.Enc
 open Driver
 
 def dispatch (line : String) : String :=
   match line.splitOn "\t" with
   | "ops" :: args => handleOps args
+  | "enc" :: args => handleEnc args
+  | "dec" :: args => handleDec args
   | _ => "bad-op"
 
 partial def loop (h : IO.FS.Stream) (out : IO.FS.Stream) : IO Unit := do
